@@ -4,6 +4,7 @@
 package core
 
 import (
+	"verif/checker/internal/inline"
 	"go/parser"
 	"encoding/json"
 	"fmt"
@@ -127,6 +128,27 @@ func importsOnlyAST(f *ast.File) bool {
 	return true
 }
 
+// confirmedFuncs: per hand-written package, the functions ("Name" / "Recv.Name") that exist on the pinned tree and
+// that the rules know by name. Unexported functions outside this table are treated as helpers extracted later and
+// are inlined before analysis (package inline).
+var confirmedFuncs = map[string]map[string]bool{
+	"runtime":                  set("EncodeVarint", "MarshalInputToOptions", "SizeInputToOptions", "Skip", "Sov", "Soz", "UnmarshalInputToOptions", "nestedRecursionLimit",
+		// the option-mapping rule evaluates helper calls itself (OPTS): nothing is inlined into these three
+		"!MarshalInputToOptions", "!SizeInputToOptions", "!UnmarshalInputToOptions"),
+	"anyutil":                  set("MarshalFrom", "New", "Unpack"),
+	"support/timepb":           set("Add", "AddStd", "Compare", "DurationIsNegative", "IsZero", "overflowPanic"),
+	"rapidproto":               set("GeneratorOptions.WithAnyTypes", "GeneratorOptions.WithDisallowNil", "GeneratorOptions.WithInterfaceHint", "GeneratorOptions.genAny", "GeneratorOptions.genDuration", "GeneratorOptions.genFieldMask", "GeneratorOptions.genScalarFieldValue", "GeneratorOptions.genTimestamp", "GeneratorOptions.setFieldValue", "GeneratorOptions.setFields", "MessageGenerator", "setSecondsNanosFields"),
+	"cmd/protoc-gen-go-pulsar": set("ObjectSet.Set", "ObjectSet.String", "generateAllFiles", "main", "rewriteMessageField"),
+}
+
+func set(names ...string) map[string]bool {
+	m := map[string]bool{}
+	for _, n := range names {
+		m[n] = true
+	}
+	return m
+}
+
 // guardedUniverse: the predeclared identifiers whose meaning the rules rely on
 // (any, min, max, clear, print, … are not relied upon and may be shadowed, as the pinned tree does).
 var guardedUniverse = map[string]bool{
@@ -164,6 +186,7 @@ func (o *Obligation) Key() string { return o.Rule + " " + o.Construct }
 
 // Ctx is the analysis context for one run.
 type Ctx struct {
+	Inlined  []string // helper normalisation log
 	Repo     string
 	Tier     string
 	Property string
@@ -248,6 +271,47 @@ func (c *Ctx) Load() error {
 		if len(pkgs) == 0 {
 			c.loadErr = fmt.Errorf("no packages loaded from %s", c.Repo)
 			return
+		}
+		// Normalisation: unexported helpers that are not in the table of function names confirmed on the pinned
+		// tree are inlined (at source level, through an overlay) into their callers in the hand-written packages,
+		// so that extracting a helper from an analysed function does not hide the function's shape from the rules.
+		{
+			first := map[string]*packages.Package{}
+			packages.Visit(pkgs, nil, func(p *packages.Package) { first[p.PkgPath] = p })
+			overlay := map[string][]byte{}
+			rels := make([]string, 0, len(confirmedFuncs))
+			for rel := range confirmedFuncs {
+				rels = append(rels, rel)
+			}
+			sort.Strings(rels)
+			for _, rel := range rels {
+				rel := rel
+				loader := func(pattern string, ov map[string][]byte) (*packages.Package, error) {
+					if len(ov) == 0 {
+						return first[RepoModule+"/"+rel], nil
+					}
+					c2 := *cfg
+					c2.Overlay = ov
+					ps, err := packages.Load(&c2, "./"+rel)
+					if err != nil || len(ps) != 1 {
+						return nil, fmt.Errorf("reloading %s: %v", rel, err)
+					}
+					return ps[0], nil
+				}
+				log, err := inline.Normalize(loader, rel, confirmedFuncs[rel], overlay)
+				if err != nil {
+					c.Undec("LOAD", "helper normalisation of "+rel, err.Error(), rel, "S0")
+				}
+				c.Inlined = append(c.Inlined, log...)
+			}
+			if len(overlay) > 0 {
+				cfg.Overlay = overlay
+				pkgs, err = packages.Load(cfg, "./...")
+				if err != nil {
+					c.loadErr = err
+					return
+				}
+			}
 		}
 		c.PkgByID = map[string]*packages.Package{}
 		var errs []string
